@@ -207,6 +207,18 @@ test('t3', exe, suite: 'sc', should_fail: false)
 test('t4', dump, args: ['--dump=%(d)s/t4.dump', '--tap'], protocol: 'tap')
 benchmark('b1', dump, args: ['--dump=%(d)s/b1.dump', '--env=BV', 'bench arg'], env: {'BV': '1'})
 benchmark('b2', dump, args: ['--dump=%(d)s/b2.dump', '--env=ZED', '--env=LD_LIBRARY_PATH'], env: e, depends: [lib3])
+# programs and arguments that only `meson test` needs (not built by default): the dependencies intro-tests.json lists must be the
+# ones the test run builds first
+exe2 = executable('texe2', 'main.c', build_by_default: false)
+meson.override_find_program('tool2', exe2)
+test('t6', find_program('tool2'), suite: 'sc')
+ct2 = custom_target('tct2', output: 'tct2.txt', command: ['touch', '@OUTPUT@'], build_by_default: false)
+test('t7', dump, args: ['--dump=%(d)s/t7.dump', ct2])
+exe3 = executable('texe3', 'main.c', build_by_default: false)
+benchmark('b3', exe3)
+exe4 = executable('texe4', 'main.c', build_by_default: false)
+meson.override_find_program('tool4', exe4)
+benchmark('b4', find_program('tool4'), args: [exe3])
 subproject('tsp')
 ''',
     'main.c': 'int main(void) { return 0; }\n', 'l.c': 'int l(void) { return 0; }\n',
@@ -289,6 +301,28 @@ def check_tests(job):
                 continue
             if t['env'].get(k) != val:
                 v.append(('C15:tests:env', 'test %s: %s=%r at run time, intro-tests.json env says %r' % (t['name'], k, val, t['env'].get(k))))
+    # dependencies: `meson test NAME` builds the files intro-targets.json names for the ids in the test's `depends`; a plain
+    # `meson test` builds meson-test-prereq (meson-benchmark-prereq).  Both are "the dependencies meson test actually uses", so
+    # every file the introspection data names as a dependency (and a test program inside the build directory) must be among what
+    # the prereq statement builds.
+    by_id = {t['id']: t for t in load(bdir, 'intro-targets.json')}
+    ndeps = 0
+    for lst, phony in ((tests, 'meson-test-prereq'), (bench, 'meson-benchmark-prereq')):
+        reach = mf.reachable_from([phony])
+        for t in lst:
+            need = [(dep, f) for dep in t['depends'] for f in by_id.get(dep, {}).get('filename', [])]
+            if os.path.isabs(t['cmd'][0]) and t['cmd'][0].startswith(bdir + '/'):
+                need.append(('<program>', t['cmd'][0]))
+                if not any(t['cmd'][0] in by_id.get(dep, {}).get('filename', []) for dep in t['depends']):
+                    v.append(('C15:tests:program-not-in-depends', '%s runs %s, which no entry of its depends %r produces' % (t['name'], t['cmd'][0], t['depends'])))
+            for dep, f in need:
+                n += 1
+                ndeps += 1
+                o = rn.canon_path(os.path.relpath(f, bdir))
+                if o not in reach:
+                    v.append(('C15:tests:dependency-not-built-by-prereq', '%s: intro lists %s (%s) as a dependency, %s does not build it' % (t['name'], dep, o, phony)))
+    if ndeps < 8:
+        v.append(('C15:INTERNAL', 'only %d test dependencies were compared' % ndeps))
     # suites: `meson test --list --suite S` must list exactly the tests whose intro suite contains S
     def sel_matches(sel, t):
         # Unit-tests.md: --suite NAME selects by suite name, by (sub)project name, or by project:suite
@@ -298,7 +332,8 @@ def check_tests(job):
                 return True
         return False
     # ground truth from the build definition generated above
-    ground = {'t1': ('tp', ['sa', 'sb']), 't2': ('tp', ['sb']), 't3': ('tp', ['sc']), 't4': ('tp', []), 't5': ('tp', ['sd']), 'st1': ('tsp', ['sa'])}
+    ground = {'t1': ('tp', ['sa', 'sb']), 't2': ('tp', ['sb']), 't3': ('tp', ['sc']), 't4': ('tp', []), 't5': ('tp', ['sd']), 'st1': ('tsp', ['sa']),
+              't6': ('tp', ['sc']), 't7': ('tp', [])}
 
     def truth(sel):
         out = []
